@@ -170,6 +170,9 @@ def run(ctx):
         if "ok" not in dh or "ok" not in dt or dh["ok"] != dt["ok"]:
             ctx.violation("descriptor-differs", "%s creates %s, the explicit constructor creates %s" % (arm, json.dumps(dh)[:300], json.dumps(dt)[:300]), rp); continue
         mh, mt = rs[marks["metric"]], rs[marks["metric"] + 1]
+        unread = [x for x in [mh, mt] + rs[marks["gather"]:marks["gather"] + 3] if "ok" not in x]
+        if unread:
+            ctx.violation("unreadable", "%s: the created metric or a registry could not be read: %s" % (arm, json.dumps(unread[0])[:200]), rp); continue
         if "histogram" in c["m"]:
             bh = [b[0]["bits"] for b in mh["ok"]["hist"]["b"]]
             bt = [b[0]["bits"] for b in mt["ok"]["hist"]["b"]]
